@@ -42,6 +42,7 @@ type Contract struct {
 	Assigns    []*Clause
 	HasAssigns bool
 	AssignsAll bool
+	NoGhost    bool // with "assigns everything": the ghost variables are nevertheless unchanged
 	Effects    []*Effect
 	Panics     *Clause // "panics when e"
 	Exits      *Clause // "exits when e"
@@ -163,6 +164,8 @@ func ParseContractFile(path, pkgPath string) ([]*Contract, error) {
 				return nil, fmt.Errorf("%s:%d: %v", path, lineNo, err)
 			}
 			cur.Effects = append(cur.Effects, &Effect{Target: strings.TrimSpace(parts[0]), Src: rest, Expr: e})
+		case "noghost":
+			cur.NoGhost = true
 		case "maypanic":
 			cur.MayPanic = true
 		case "panics", "exits":
